@@ -409,8 +409,18 @@ impl Complement for AdjacencyList {
     fn complement(&self) -> Self {
         #[cfg(graaf_verif)]
         use crate::verif_seam::{
+            atomic,
             available_parallelism,
+            mpsc,
+            scope,
             spawn,
+            thread,
+            AtomicBool,
+            AtomicUsize,
+            Barrier,
+            Condvar,
+            Mutex,
+            RwLock,
         };
 
         let order = self.order();
@@ -517,8 +527,18 @@ impl Complete for AdjacencyList {
     fn complete(order: usize) -> Self {
         #[cfg(graaf_verif)]
         use crate::verif_seam::{
+            atomic,
             available_parallelism,
+            mpsc,
+            scope,
             spawn,
+            thread,
+            AtomicBool,
+            AtomicUsize,
+            Barrier,
+            Condvar,
+            Mutex,
+            RwLock,
         };
 
         assert!(order > 0, "a digraph has at least one vertex");
@@ -643,8 +663,18 @@ impl DegreeSequence for AdjacencyList {
     fn degree_sequence(&self) -> impl Iterator<Item = usize> {
         #[cfg(graaf_verif)]
         use crate::verif_seam::{
+            atomic,
             available_parallelism,
+            mpsc,
             scope,
+            spawn,
+            thread,
+            AtomicBool,
+            AtomicUsize,
+            Barrier,
+            Condvar,
+            Mutex,
+            RwLock,
         };
 
         let order = self.order();
@@ -972,8 +1002,16 @@ impl IsSemicomplete for AdjacencyList {
         use crate::verif_seam::{
             atomic,
             available_parallelism,
+            mpsc,
             scope,
+            spawn,
+            thread,
             AtomicBool,
+            AtomicUsize,
+            Barrier,
+            Condvar,
+            Mutex,
+            RwLock,
         };
 
         let order = self.order();
@@ -1307,8 +1345,18 @@ impl Union for AdjacencyList {
     fn union(&self, other: &Self) -> Self {
         #[cfg(graaf_verif)]
         use crate::verif_seam::{
+            atomic,
             available_parallelism,
+            mpsc,
             scope,
+            spawn,
+            thread,
+            AtomicBool,
+            AtomicUsize,
+            Barrier,
+            Condvar,
+            Mutex,
+            RwLock,
         };
 
         let order = self.order().max(other.order());
